@@ -169,6 +169,14 @@ func checkC14(c *Check) {
 		"deep":  filepath.Join(root, "a/very/deep/path/of/directories/x/y/z"),
 		"blank": filepath.Join(root, "dir with blanks/and more"),
 	}
+	// one copy whose absolute path sorts behind the tool's std directory (the scratch area sorts before it): the
+	// order of two paths as strings is no input either
+	if exe, err := os.Executable(); err == nil {
+		after := filepath.Join(filepath.Dir(exe), "zz-c14-relocated")
+		os.RemoveAll(after)
+		locs["after-std"] = after
+		defer os.RemoveAll(after)
+	}
 	for _, base := range locs {
 		for _, p := range corpus {
 			WriteSources(filepath.Join(base, p.name), p.files, "main.tsh")
@@ -273,8 +281,10 @@ func checkC14(c *Check) {
 		}
 	}
 	// 4. relocated copies, whole corpus
-	for _, loc := range []string{"deep", "blank"} {
-		runHistory("relocated/"+loc, loc, all, true)
+	for _, loc := range []string{"deep", "blank", "after-std"} {
+		if _, ok := locs[loc]; ok {
+			runHistory("relocated/"+loc, loc, all, true)
+		}
 	}
 	// 5. fresh processes (absolute paths), and one with relative paths from another cwd
 	nproc := c.Pick(8, 64)
